@@ -16,6 +16,7 @@ RULE = ("strings: exhaustive over the alphabet {' \" \\ $ ` space newline * a} u
         "(all 4^5 kind sequences in thorough): every scalar field must arrive exactly once, in order, whatever is "
         "skipped before it. distinct = distinct (position, string) or kind sequence; non-trivial = contains a "
         "shell-significant character or a skipped field before a scalar.")
+RULE += (" " + 'Also: two words of 4 KiB .. 70,000 characters per shard; commands starting with a dash - the function standing in for `exec` is read the way the builtin reads its words (leading dash words are ITS options up to `--`).')
 
 ALPHA = ["'", '"', "\\", "$", "`", " ", "\n", "*", "a"]
 CANARIES = ["$(touch CANARY)", "`touch CANARY`", "$HOME", "${HOME}", "~", "*", "?", "[a-z]*", "a;touch CANARY", "a&&touch CANARY",
